@@ -197,6 +197,9 @@ impl SimStream {
             .envs(std::env::vars().filter(|(k, _)| k == "PATH"))
             .env("GIT_PROTOCOL", "version=2")
             .env("GIT_CONFIG_NOSYSTEM", "1")
+            // Delayed progress lines ("Counting objects: ..%") only appear when the child is slow (machine load):
+            // they would shift every later byte offset of the stream. Never show them.
+            .env("GIT_PROGRESS_DELAY", "100000")
             .env("HOME", git_dir)
             .args(["-c", "uploadpack.allowAnySha1InWant=true", "-c", "uploadpack.allowRefInWant=true", "-c", "lsrefs.unborn=ignore", "-c", "pack.threads=1", "upload-pack", "--strict", "--timeout=9", "."])
             .stdin(Stdio::piped())
